@@ -1,1 +1,690 @@
-fn main(){}
+//! DET engine (DESIGN.md 4.2) – decides C12: hold the file contents fixed, let the simulator drive every other
+//! input of the generation (hash keys, maps created before, thread reuse, registration order, directory order,
+//! call history, fresh process) and require byte equality with the canonical environment.
+
+use simkernel::cli::{self, PlanSpec, Scratch};
+use simkernel::gen::gen_wsdl_set;
+use simkernel::inputs::{input_sets, InputSet};
+use simkernel::serde_json::{json, Value};
+use simkernel::{panics, Chooser, Report, Rng, Violation};
+use std::collections::{BTreeMap, BTreeSet, HashMap, HashSet};
+use std::path::{Path, PathBuf};
+use std::sync::atomic::{AtomicUsize, Ordering};
+use std::sync::Mutex;
+use zeep_lib::reader::{Files, FilesToRead, WriteXml, XmlReader};
+use zeep_lib::utils::read_input_file_and_xsd_files_at_path;
+
+const PROPERTY: &str = "C12";
+const ENGINE: &str = "det";
+
+// ------------------------------------------------------------------------------------------------
+// workload
+
+struct Work {
+    sets: Vec<InputSet>,
+    dirs: Vec<PathBuf>, // materialised copy of every set (read-only, shared)
+    _scratch: Scratch,
+}
+
+fn extra_repo_sets() -> Vec<InputSet> {
+    let repo = simkernel::repo_root();
+    let mut v = Vec::new();
+    let mut one = |name: &str, p: &str| {
+        if let Ok(b) = std::fs::read(repo.join(p)) {
+            let f = Path::new(p).file_name().unwrap().to_string_lossy().to_string();
+            v.push(InputSet { name: name.into(), stage: None, files: vec![(f.clone(), b)], start: f });
+        }
+    };
+    one("aic-agent", "resources/aic/agent_wsdl.xml");
+    one("aic-workflow", "resources/aic/workflow_wsdl.xml");
+    one("aic-version(rejected)", "resources/aic/version_wsdl.xml");
+    one("aacc", "resources/aacc/CustomerWS.wsdl");
+    let ex: Vec<(String, Vec<u8>)> = ["services.wsdl", "messages.xsd", "types.xsd"]
+        .iter()
+        .filter_map(|n| std::fs::read(repo.join("resources/exchange").join(n)).ok().map(|b| ((*n).to_string(), b)))
+        .collect();
+    if ex.len() == 3 {
+        v.push(InputSet { name: "exchange".into(), stage: None, files: ex, start: "services.wsdl".into() });
+    }
+    v
+}
+
+fn build_work(tier: &str, seed: u64) -> Work {
+    let mut sets = input_sets();
+    sets.extend(extra_repo_sets());
+    let n_gen = if tier == "thorough" { 600 } else { 40 };
+    for g in 0..n_gen {
+        let mut ch = Chooser::explore(Rng::derive(seed, "det-gen", g));
+        let (s, _) = gen_wsdl_set(&mut ch, g);
+        sets.push(s);
+    }
+    let scratch = Scratch::new("det");
+    let mut dirs = Vec::new();
+    for (i, s) in sets.iter().enumerate() {
+        let d = scratch.path.join(format!("s{i}"));
+        let _ = std::fs::create_dir_all(&d);
+        for (n, b) in &s.files {
+            let _ = std::fs::write(d.join(n), b);
+        }
+        dirs.push(d);
+    }
+    Work { sets, dirs, _scratch: scratch }
+}
+
+// ------------------------------------------------------------------------------------------------
+// environment
+
+#[derive(Clone, Debug)]
+struct Env {
+    entropy: (u64, u64),
+    maps_before: u64,
+    warm: u64,        // 0: fresh thread; n: another input (index n-1 mod sets) was generated in this thread before
+    route: u64,       // 0: Files::new/add API; 1: utils::read_input_file_and_xsd_files_at_path (read_dir)
+    reg_perm: Vec<usize>,
+    readd: u64,       // 0: none; n: file n-1 is registered a second time with identical content
+    dirperm: u64,
+    history: Vec<u64>, // per op: 0 read+write on the same FilesToRead; 1 write the same RustDocument again; 2 other input in between, then read+write
+}
+
+fn decode_env(ch: &mut Chooser, n_files: usize, n_sets: usize) -> Env {
+    let e0 = ch.choose("entropy_lo", u64::MAX);
+    let e1 = ch.choose("entropy_hi", u64::MAX);
+    let maps_before = ch.choose("maps_created_before", 6);
+    let warm = if ch.choose("reused_thread", 2) == 1 { 1 + ch.choose("warm_input", n_sets as u64) } else { 0 };
+    let route = ch.choose("route_readdir", 2);
+    let reg_perm = ch.permutation("registration", n_files);
+    let readd = ch.choose("re_add", n_files as u64 + 1);
+    let dirperm = ch.choose("dirperm", u64::MAX);
+    let hl = 1 + ch.choose("history_len", 3) as usize;
+    let mut history = Vec::new();
+    for i in 0..hl {
+        let k = ch.choose("history_op", 3);
+        history.push(if i == 0 && k == 1 { 0 } else { k });
+    }
+    Env { entropy: (e0, e1), maps_before, warm, route, reg_perm, readd, dirperm, history }
+}
+
+type Out = Result<Vec<u8>, String>;
+
+fn out_sig(o: &Out) -> (bool, u64, usize) {
+    match o {
+        Ok(b) => (true, simkernel::hash_bytes(b), b.len()),
+        Err(t) => (false, simkernel::fnv(t), t.len()),
+    }
+}
+
+fn build_ftr(set: &InputSet, dir: &Path, env: &Env) -> Result<FilesToRead, String> {
+    let api_possible = set.files.iter().any(|(n, _)| n == &set.start) && set.files.iter().all(|(_, b)| std::str::from_utf8(b).is_ok());
+    if env.route == 1 || !api_possible {
+        simkernel::shim::thread_dirperm(env.dirperm);
+        return read_input_file_and_xsd_files_at_path(&dir.join(&set.start)).map_err(|e| format!("{e}"));
+    }
+    // registration through the public API, in the permuted order; only .xsd siblings and the start file are
+    // registered, exactly the set the directory route would register
+    let elig: Vec<usize> = (0..set.files.len()).filter(|i| set.files[*i].0 == set.start || set.files[*i].0.ends_with(".xsd")).collect();
+    let order: Vec<usize> = env.reg_perm.iter().filter(|i| elig.contains(i)).copied().collect();
+    let text = |i: usize| String::from_utf8_lossy(&set.files[i].1).to_string();
+    let mut files = Files::new(&set.files[order[0]].0, text(order[0]));
+    for i in &order[1..] {
+        files.add(&set.files[*i].0, text(*i));
+    }
+    if env.readd > 0 {
+        let i = (env.readd as usize - 1) % set.files.len();
+        if elig.contains(&i) {
+            files.add(&set.files[i].0, text(i));
+        }
+    }
+    Ok(FilesToRead::new(&set.start, files))
+}
+
+fn gen_once(ftr: &FilesToRead) -> (Out, Option<impl WriteXml<Vec<u8>>>) {
+    match XmlReader::read_xml(ftr) {
+        Err(e) => (Err(format!("read_xml: {e}")), None),
+        Ok(doc) => {
+            let mut out = Vec::new();
+            match doc.write_xml(&mut out) {
+                Ok(()) => (Ok(out), Some(doc)),
+                Err(e) => (Err(format!("write_xml: {e}")), Some(doc)),
+            }
+        }
+    }
+}
+
+/// Runs one environment in a fresh thread. Returns one outcome per history operation and the vacuity probe.
+fn run_env(w: &Work, si: usize, env: &Env) -> (Vec<Out>, String) {
+    std::thread::scope(|s| {
+        s.spawn(move || {
+            simkernel::shim::thread_entropy(env.entropy.0, env.entropy.1);
+            // vacuity probe: iteration order of a harness-owned map under this run's key
+            let mut probe: HashMap<String, ()> = HashMap::new();
+            for k in ["a", "b", "c", "d", "e", "f", "g", "h"] {
+                probe.insert(k.to_string(), ());
+            }
+            let order: String = probe.keys().cloned().collect();
+            drop(probe);
+            let mut keep = Vec::new();
+            for _ in 0..env.maps_before {
+                let m: HashMap<u32, u32> = HashMap::new();
+                keep.push(m);
+            }
+            let other = |k: usize| {
+                let oi = k % w.sets.len();
+                let e0 = Env { route: 1, dirperm: 0, ..env.clone() };
+                let _ = panics::catch(|| build_ftr(&w.sets[oi], &w.dirs[oi], &e0).map(|f| gen_once(&f).0));
+            };
+            if env.warm > 0 {
+                other(env.warm as usize - 1);
+            }
+            let set = &w.sets[si];
+            let mut outs: Vec<Out> = Vec::new();
+            let r = panics::catch(|| {
+                let ftr = match build_ftr(set, &w.dirs[si], env) {
+                    Ok(f) => f,
+                    Err(e) => return vec![Err(format!("files: {e}")); env.history.len()],
+                };
+                let mut outs = Vec::new();
+                let mut last_doc = None;
+                for (i, op) in env.history.iter().enumerate() {
+                    match op {
+                        1 if last_doc.is_some() => {
+                            let d = last_doc.as_ref().unwrap();
+                            let mut out = Vec::new();
+                            outs.push(match WriteXml::<Vec<u8>>::write_xml(d, &mut out) {
+                                Ok(()) => Ok(out),
+                                Err(e) => Err(format!("write_xml: {e}")),
+                            });
+                        }
+                        _ => {
+                            if *op == 2 {
+                                other(si + 1 + i);
+                            }
+                            let (o, d) = gen_once(&ftr);
+                            outs.push(o);
+                            if d.is_some() {
+                                last_doc = d;
+                            }
+                        }
+                    }
+                }
+                outs
+            });
+            match r {
+                Ok(v) => outs.extend(v),
+                Err((m, l)) => outs = vec![Err(format!("panic: {m} at {}", simkernel::norm_loc(&l))); env.history.len()],
+            }
+            (outs, order)
+        })
+        .join()
+        .unwrap_or_else(|_| (vec![Err("harness thread died".into())], String::new()))
+    })
+}
+
+fn canonical_env(n_files: usize) -> Env {
+    Env { entropy: (0, 0), maps_before: 0, warm: 0, route: 0, reg_perm: (0..n_files).collect(), readd: 0, dirperm: 0, history: vec![0] }
+}
+
+fn env_json(e: &Env) -> Value {
+    json!({"entropy": format!("{:x}:{:x}", e.entropy.0, e.entropy.1), "maps_created_before": e.maps_before, "reused_thread_after_input": e.warm,
+           "route": if e.route == 1 { "read_dir (utils)" } else { "Files::new/add" }, "registration_order": e.reg_perm, "re_added_file": e.readd,
+           "dirperm": e.dirperm, "history": e.history.iter().map(|h| ["read+write same FilesToRead", "write same RustDocument again", "other input, then read+write same FilesToRead"][*h as usize]).collect::<Vec<_>>()})
+}
+
+fn first_diff(a: &Out, b: &Out) -> String {
+    match (a, b) {
+        (Ok(x), Ok(y)) => {
+            let i = x.iter().zip(y.iter()).position(|(p, q)| p != q).unwrap_or(x.len().min(y.len()));
+            let ctx = |v: &[u8]| String::from_utf8_lossy(&v[i.saturating_sub(30)..(i + 50).min(v.len())]).replace('\n', "\\n");
+            format!("lengths {} vs {}; first difference at byte {i}: canonical ..{}.. / this run ..{}..", x.len(), y.len(), ctx(x), ctx(y))
+        }
+        (Ok(x), Err(e)) => format!("canonical Ok({} bytes), this run Err({e})", x.len()),
+        (Err(e), Ok(y)) => format!("canonical Err({e}), this run Ok({} bytes)", y.len()),
+        (Err(e), Err(f)) => format!("canonical Err({e}), this run Err({f})"),
+    }
+}
+
+/// Which dimensions of the environment are non-canonical (after shrinking this names the cause).
+fn dims(e: &Env, n_files: usize) -> Vec<&'static str> {
+    let mut d = Vec::new();
+    if e.entropy != (0, 0) {
+        d.push("hash-key");
+    }
+    if e.maps_before != 0 {
+        d.push("maps-created-before");
+    }
+    if e.warm != 0 {
+        d.push("reused-thread");
+    }
+    if e.route != 0 {
+        d.push("read_dir-route");
+    }
+    if e.reg_perm != (0..n_files).collect::<Vec<_>>() {
+        d.push("registration-order");
+    }
+    if e.readd != 0 {
+        d.push("re-added-file");
+    }
+    if e.dirperm != 0 && e.route == 1 {
+        d.push("directory-order");
+    }
+    if e.history.len() > 1 || e.history[0] != 0 {
+        d.push(if e.history.contains(&1) && !e.history[1..].iter().any(|h| *h != 1) { "history:write-again" } else { "history:read-again" });
+    }
+    d
+}
+
+// ------------------------------------------------------------------------------------------------
+
+#[derive(Default)]
+struct Stats {
+    runs: u64,
+    outputs: u64,
+    probes: BTreeMap<String, u64>,
+    dims_explored: BTreeMap<String, u64>,
+    probe_orders: HashSet<String>,
+    signatures: HashSet<u64>,
+    found: Vec<(usize, Vec<u64>, usize)>, // set, tape, history index
+    samples: Vec<Value>,
+    digest: u64,
+}
+
+struct Item {
+    set: usize,
+    tape: Vec<u64>,
+}
+
+fn run_items(w: &Work, canon: &[Out], items: &[Item]) -> Stats {
+    let next = AtomicUsize::new(0);
+    let out = Mutex::new(Stats::default());
+    std::thread::scope(|s| {
+        for _ in 0..simkernel::workers() {
+            s.spawn(|| {
+                let mut st = Stats::default();
+                loop {
+                    let i = next.fetch_add(1, Ordering::Relaxed);
+                    if i >= items.len() {
+                        break;
+                    }
+                    let it = &items[i];
+                    let nf = w.sets[it.set].files.len();
+                    let mut ch = Chooser::replay(it.tape.clone());
+                    let env = decode_env(&mut ch, nf, w.sets.len());
+                    let (outs, order) = run_env(w, it.set, &env);
+                    st.runs += 1;
+                    st.outputs += outs.len() as u64;
+                    st.probe_orders.insert(order);
+                    let ds = dims(&env, nf);
+                    for d in &ds {
+                        *st.dims_explored.entry((*d).to_string()).or_insert(0) += 1;
+                    }
+                    if !ds.is_empty() {
+                        let mut sig = it.set as u64;
+                        for v in &it.tape {
+                            sig = sig.rotate_left(11) ^ v.wrapping_mul(0x9e37_79b9_7f4a_7c15);
+                        }
+                        st.signatures.insert(sig);
+                    }
+                    let mut d = i as u64;
+                    for (h, o) in outs.iter().enumerate() {
+                        let sg = out_sig(o);
+                        d = d.rotate_left(9) ^ sg.1 ^ sg.2 as u64;
+                        if sg != out_sig(&canon[it.set]) {
+                            if st.found.len() < 3000 {
+                                st.found.push((it.set, it.tape.clone(), h));
+                            }
+                            *st.probes.entry("outputs_differing_from_canonical".into()).or_insert(0) += 1;
+                        } else {
+                            *st.probes.entry(if o.is_ok() { "outputs_equal_ok".to_string() } else { "outcomes_equal_err".to_string() }).or_insert(0) += 1;
+                        }
+                    }
+                    let mut t = d;
+                    st.digest = st.digest.wrapping_add(simkernel::splitmix64(&mut t));
+                    if i % (items.len() / 5 + 1) == 0 && st.samples.len() < 5 {
+                        st.samples.push(json!({"input": w.sets[it.set].name, "tape": ch.tape_json(), "environment": env_json(&env),
+                            "outcomes": outs.iter().map(|o| { let s = out_sig(o); json!({"ok": s.0, "hash": format!("{:016x}", s.1), "len": s.2}) }).collect::<Vec<_>>() }));
+                    }
+                }
+                let mut g = out.lock().unwrap();
+                g.runs += st.runs;
+                g.outputs += st.outputs;
+                for (k, v) in st.probes {
+                    *g.probes.entry(k).or_insert(0) += v;
+                }
+                for (k, v) in st.dims_explored {
+                    *g.dims_explored.entry(k).or_insert(0) += v;
+                }
+                g.probe_orders.extend(st.probe_orders);
+                g.signatures.extend(st.signatures);
+                g.found.extend(st.found);
+                g.samples.extend(st.samples);
+                g.samples.truncate(8);
+                g.digest = g.digest.wrapping_add(st.digest);
+            });
+        }
+    });
+    out.into_inner().unwrap()
+}
+
+// process tier (D3): the unmodified binary in fresh processes under (entropy, directory order)
+struct ProcFinding {
+    set: usize,
+    entropy: u64,
+    dirperm: u64,
+    detail: String,
+}
+
+fn process_tier(w: &Work, tier: &str, seed: u64) -> (u64, Vec<ProcFinding>, Vec<Value>) {
+    if !cli::zeep_bin().is_file() {
+        return (0, vec![], vec![]);
+    }
+    let n_env = if tier == "thorough" { 64 } else { 16 };
+    let names = ["tempconverter", "chain", "orders", "number_services", "hello", "unresolved-reference", "aic-agent", "malformed-sibling"];
+    let mut idx: Vec<usize> = names.iter().filter_map(|n| w.sets.iter().position(|s| &s.name == n)).collect();
+    if tier == "thorough" {
+        idx.extend(w.sets.iter().enumerate().filter(|(_, s)| s.name.starts_with("generated-")).map(|(i, _)| i).take(42));
+    } else {
+        idx.extend(w.sets.iter().enumerate().filter(|(_, s)| s.name.starts_with("generated-")).map(|(i, _)| i).take(4));
+    }
+    let jobs: Vec<(usize, u64)> = idx.iter().flat_map(|s| (0..n_env).map(move |e| (*s, e))).collect();
+    let next = AtomicUsize::new(0);
+    let results: Mutex<BTreeMap<(usize, u64), (Option<i32>, Option<Vec<u8>>, u64, u64)>> = Mutex::new(BTreeMap::new());
+    std::thread::scope(|s| {
+        for _ in 0..simkernel::workers() {
+            s.spawn(|| loop {
+                let j = next.fetch_add(1, Ordering::Relaxed);
+                if j >= jobs.len() {
+                    break;
+                }
+                let (si, e) = jobs[j];
+                let mut rng = Rng::derive(seed, "det-proc", (si as u64) << 16 | e);
+                let (entropy, dirperm) = if e == 0 { (0, 0) } else { (rng.next_u64(), rng.next_u64() | 1) };
+                let sc = Scratch::new("detp");
+                let top = sc.path.clone();
+                let wd = top.join("w");
+                let _ = std::fs::create_dir_all(&wd);
+                for (n, b) in &w.sets[si].files {
+                    let _ = std::fs::write(wd.join(n), b);
+                }
+                let input = wd.join(&w.sets[si].start);
+                let output = top.join("out.rs");
+                let plan = PlanSpec { root: top.clone(), input: input.clone(), output: output.clone(), dir: wd.clone(), entropy: (entropy, 0x0d), dirperm, dirorder: vec![], faults: vec![] };
+                let args = vec!["-i".to_string(), input.to_string_lossy().to_string(), "-o".to_string(), output.to_string_lossy().to_string()];
+                let run = cli::run_zeep(&top, &top, &args, &plan, "p");
+                let bytes = std::fs::read(&output).ok();
+                results.lock().unwrap().insert((si, e), (run.exit_code, bytes, entropy, dirperm));
+            });
+        }
+    });
+    let results = results.into_inner().unwrap();
+    let mut findings = Vec::new();
+    let mut samples = Vec::new();
+    for si in &idx {
+        let base = &results[&(*si, 0)];
+        for e in 1..n_env {
+            let r = &results[&(*si, e)];
+            if r.0 != base.0 || r.1 != base.1 {
+                findings.push(ProcFinding {
+                    set: *si,
+                    entropy: r.2,
+                    dirperm: r.3,
+                    detail: format!("fresh process: exit {:?}/{:?}; {}", base.0, r.0, first_diff(&base.1.clone().ok_or(String::new()), &r.1.clone().ok_or(String::new()))),
+                });
+            }
+        }
+        if samples.len() < 3 {
+            samples.push(json!({"process_tier_input": w.sets[*si].name, "exit": base.0, "output_len": base.1.as_ref().map(Vec::len), "environments": n_env}));
+        }
+    }
+    (jobs.len() as u64, findings, samples)
+}
+
+fn replay_case(w: &Work, set_name: &str, tape: &[u64]) -> Result<(Option<(String, String, String)>, Value), String> {
+    let si = w.sets.iter().position(|s| s.name == set_name).ok_or_else(|| format!("unknown input set {set_name}"))?;
+    let nf = w.sets[si].files.len();
+    let canon = run_env(w, si, &canonical_env(nf)).0.remove(0);
+    let mut ch = Chooser::replay(tape.to_vec());
+    let env = decode_env(&mut ch, nf, w.sets.len());
+    let (outs, _) = run_env(w, si, &env);
+    let sj = |o: &Out| {
+        let s = out_sig(o);
+        json!({"ok": s.0, "hash": format!("{:016x}", s.1), "len": s.2})
+    };
+    let obs = json!({"environment": env_json(&env), "canonical": sj(&canon), "outcomes": outs.iter().map(sj).collect::<Vec<_>>()});
+    for o in &outs {
+        if out_sig(o) != out_sig(&canon) {
+            let key = format!("output-differs:{}", dims(&env, nf).join("+"));
+            return Ok((Some(("output-differs".into(), key, first_diff(&canon, o))), obs));
+        }
+    }
+    Ok((None, obs))
+}
+
+fn main() {
+    let args: Vec<String> = std::env::args().collect();
+    if args.get(1).map(String::as_str) == Some("gen") {
+        // sim-det gen <index> <dir>: write the generated file set with this index (same derivation as the workload)
+        let g: u64 = args.get(2).and_then(|s| s.parse().ok()).unwrap_or(0);
+        let dir = PathBuf::from(args.get(3).cloned().unwrap_or_else(|| ".".into()));
+        let mut ch = Chooser::explore(Rng::derive(simkernel::verif_seed(), "det-gen", g));
+        let (s, meta) = gen_wsdl_set(&mut ch, g);
+        let _ = std::fs::create_dir_all(&dir);
+        for (n, b) in &s.files {
+            std::fs::write(dir.join(n), b).unwrap();
+        }
+        println!("{}", json!({"ops": meta.ops.iter().map(|o| json!({"name": o.name, "header": o.has_header, "parts_attr": o.parts_attr, "parts": o.n_parts})).collect::<Vec<_>>(), "files": meta.n_files, "location": meta.location}));
+        return;
+    }
+    let (tier, replay, _extra) = simkernel::parse_cli();
+    panics::install_hook();
+    if !simkernel::shim::present() {
+        eprintln!("HARNESS-ERROR: libverifsim.so is not preloaded (run through /verif/check)");
+        std::process::exit(2);
+    }
+    let mut report = Report::new(PROPERTY, ENGINE, &tier, "exploration");
+    let w = build_work(&tier, report.seed);
+
+    if let Some(path) = replay {
+        let v = match simkernel::load_replay(&path) {
+            Ok(v) => v,
+            Err(e) => {
+                eprintln!("HARNESS-ERROR: {e}");
+                std::process::exit(2);
+            }
+        };
+        if v["scenario"]["tier"].as_str() == Some("process") {
+            // process-tier replay: rerun the two processes
+            let si = w.sets.iter().position(|s| Some(s.name.as_str()) == v["scenario"]["input_set"].as_str());
+            let (Some(si), Some(e), Some(d)) = (si, v["scenario"]["entropy"].as_u64(), v["scenario"]["dirperm"].as_u64()) else {
+                eprintln!("HARNESS-ERROR: bad process replay file");
+                std::process::exit(2);
+            };
+            let run = |entropy: u64, dirperm: u64| {
+                let sc = Scratch::new("detp");
+                let top = sc.path.clone();
+                let wd = top.join("w");
+                let _ = std::fs::create_dir_all(&wd);
+                for (n, b) in &w.sets[si].files {
+                    let _ = std::fs::write(wd.join(n), b);
+                }
+                let input = wd.join(&w.sets[si].start);
+                let output = top.join("out.rs");
+                let plan = PlanSpec { root: top.clone(), input: input.clone(), output: output.clone(), dir: wd.clone(), entropy: (entropy, 0x0d), dirperm, dirorder: vec![], faults: vec![] };
+                let a = vec!["-i".to_string(), input.to_string_lossy().to_string(), "-o".to_string(), output.to_string_lossy().to_string()];
+                let r = cli::run_zeep(&top, &top, &a, &plan, "p");
+                (r.exit_code, std::fs::read(&output).ok())
+            };
+            let (a, b) = (run(0, 0), run(e, d));
+            if a != b {
+                println!("REPLAY property={PROPERTY} class=process-output-differs exit {:?}/{:?}", a.0, b.0);
+                println!("REPLAY-REPRODUCED");
+                println!("VIOLATION property={PROPERTY} replay={}", path.display());
+                std::process::exit(1);
+            }
+            println!("REPLAY property={PROPERTY} no violation");
+            std::process::exit(0);
+        }
+        let name = v["scenario"]["input_set"].as_str().unwrap_or("").to_string();
+        let tape = simkernel::tape_values_from_json(&v["tape"]);
+        match replay_case(&w, &name, &tape) {
+            Ok((Some((class, key, detail)), obs)) => {
+                println!("REPLAY property={PROPERTY} class={class} key={key} :: {detail}\n{obs}");
+                println!("REPLAY-{}", if v["key"].as_str() == Some(key.as_str()) { "REPRODUCED" } else { "DIFFERENT-VIOLATION" });
+                println!("VIOLATION property={PROPERTY} replay={}", path.display());
+                std::process::exit(1);
+            }
+            Ok((None, obs)) => {
+                println!("REPLAY property={PROPERTY} no violation\n{obs}");
+                std::process::exit(0);
+            }
+            Err(e) => {
+                eprintln!("HARNESS-ERROR: {e}");
+                std::process::exit(2);
+            }
+        }
+    }
+
+    // canonical outcome per input
+    let canon: Vec<Out> = (0..w.sets.len()).map(|si| run_env(&w, si, &canonical_env(w.sets[si].files.len())).0.remove(0)).collect();
+    let n_env = if tier == "thorough" { 256 } else { 64 };
+    let mut items = Vec::new();
+    for si in 0..w.sets.len() {
+        let big = w.sets[si].files.iter().map(|f| f.1.len()).sum::<usize>() > 300_000;
+        let n = if big { n_env / 16 } else { n_env };
+        let nf = w.sets[si].files.len() as u64;
+        for e in 0..n {
+            let mut ch = Chooser::explore(Rng::derive(report.seed, "det-env", (si as u64) << 20 | e));
+            // the first environments of every input vary exactly one dimension (directed), the rest are seeded mixes
+            let tape: Vec<u64> = match e {
+                0 => vec![ch.choose("e", u64::MAX) | 1],                       // hash key only
+                1 => vec![0, 0, 0, 0, 0],                                      // canonical again (repeatability)
+                2 => { let mut t = vec![0, 0, 0, 0, 0]; t.extend(vec![0; nf.saturating_sub(1) as usize]); t.extend([0, 0, 1, 0, 0]); t } // history: read twice
+                3 => { let mut t = vec![0, 0, 0, 0, 0]; t.extend(vec![0; nf.saturating_sub(1) as usize]); t.extend([0, 0, 2, 0, 0, 0]); t } // read three times
+                4 => { let mut t = vec![0, 0, 0, 0, 0]; t.extend(vec![0; nf.saturating_sub(1) as usize]); t.extend([0, 0, 1, 0, 1]); t } // write again
+                5 => vec![0, 0, 0, 0, 1, ],                                    // read_dir route, sorted
+                6 => { let mut t = vec![0, 0, 0, 0, 1]; t.extend(vec![0; nf.saturating_sub(1) as usize]); t.extend([0, ch.choose("d", u64::MAX) | 1]); t } // read_dir, permuted
+                7 => vec![0, 0, 3],                                            // maps created before
+                8 => vec![0, 0, 0, 1, 2],                                      // reused thread
+                _ => {
+                    let _ = decode_env(&mut ch, nf as usize, w.sets.len());
+                    ch.values()
+                }
+            };
+            items.push(Item { set: si, tape });
+        }
+    }
+    let stats = run_items(&w, &canon, &items);
+
+    // self-probe against vacuity
+    if stats.probe_orders.len() < 2 {
+        report.harness_errors.push(format!("hash-key self-probe: only {} distinct iteration order(s) seen over {} runs - the entropy seam is not in effect", stats.probe_orders.len(), stats.runs));
+    }
+    // determinism self-check
+    let slice: Vec<Item> = items.iter().step_by((items.len() / 800).max(1)).map(|i| Item { set: i.set, tape: i.tape.clone() }).collect();
+    let a = run_items(&w, &canon, &slice);
+    std::env::set_var("VERIF_WORKERS", "3");
+    let b = run_items(&w, &canon, &slice);
+    std::env::remove_var("VERIF_WORKERS");
+    let mism = u64::from(a.digest != b.digest);
+    if mism != 0 {
+        report.harness_errors.push("determinism self-check failed: same (input, tape) gave different outcomes".into());
+    }
+
+    let (proc_runs, proc_findings, proc_samples) = process_tier(&w, &tier, report.seed);
+
+    // minimise: a sample of the smallest failing tapes, shrunk; one violation per (shrunk) key
+    let mut found = stats.found.clone();
+    found.sort_by_key(|(s, t, _)| (w.sets[*s].files.iter().map(|f| f.1.len()).sum::<usize>(), t.len()));
+    let mut by_key: BTreeMap<String, (usize, Vec<u64>, String, usize)> = BTreeMap::new();
+    let mut seen_rough = BTreeSet::new();
+    for (si, tape, _) in found.iter() {
+        let nf = w.sets[*si].files.len();
+        let mut ch = Chooser::replay(tape.clone());
+        let rough = dims(&decode_env(&mut ch, nf, w.sets.len()), nf).join("+");
+        if !seen_rough.insert((rough, w.sets[*si].stage.is_some())) && by_key.len() >= 1 && seen_rough.len() > 40 {
+            continue;
+        }
+        if seen_rough.len() > 60 {
+            break;
+        }
+        let name = w.sets[*si].name.clone();
+        let (min_tape, _) = simkernel::shrink_tape(tape, 80, |t| matches!(replay_case(&w, &name, t), Ok((Some(_), _))));
+        if let Ok((Some((_, key, detail)), _)) = replay_case(&w, &name, &min_tape) {
+            let size = w.sets[*si].files.iter().map(|f| f.1.len()).sum::<usize>();
+            if by_key.get(&key).is_none_or(|(_, _, _, s)| size < *s) {
+                by_key.insert(key, (*si, min_tape, detail, size));
+            }
+        }
+    }
+    let mut violations = Vec::new();
+    for (key, (si, tape, detail, _)) in &by_key {
+        let nf = w.sets[*si].files.len();
+        let mut ch = Chooser::replay(tape.clone());
+        let env = decode_env(&mut ch, nf, w.sets.len());
+        let (_, obs) = replay_case(&w, &w.sets[*si].name, tape).unwrap_or((None, Value::Null));
+        violations.push(Violation {
+            property: PROPERTY.into(),
+            engine: ENGINE.into(),
+            class: "output-differs".into(),
+            key: key.clone(),
+            detail: format!("input {}: {detail} [{} differing outputs in this batch]", w.sets[*si].name, stats.found.len()),
+            scenario: json!({"tier": "in-process", "input_set": w.sets[*si].name, "start_file": w.sets[*si].start, "files": w.sets[*si].files.iter().map(|(n, b)| json!({"name": n, "bytes": b.len(), "text": if b.len() < 20_000 { Value::from(String::from_utf8_lossy(b).to_string()) } else { Value::from("(large; taken from the repository/corpus)") }})).collect::<Vec<_>>(), "environment": env_json(&env)}),
+            tape: ch.tape_json(),
+            observations: obs,
+            trace: json!({}),
+        });
+    }
+    // process tier: one violation (smallest input)
+    if let Some(pf) = proc_findings.iter().min_by_key(|f| w.sets[f.set].files.iter().map(|x| x.1.len()).sum::<usize>()) {
+        violations.push(Violation {
+            property: PROPERTY.into(),
+            engine: ENGINE.into(),
+            class: "process-output-differs".into(),
+            key: "process-output-differs:hash-key-or-directory-order".into(),
+            detail: format!("input {}: {} [{} differing (input, environment) pairs]", w.sets[pf.set].name, pf.detail, proc_findings.len()),
+            scenario: json!({"tier": "process", "input_set": w.sets[pf.set].name, "entropy": pf.entropy, "dirperm": pf.dirperm}),
+            tape: json!([["entropy", "u64", pf.entropy], ["dirperm", "u64", pf.dirperm]]),
+            observations: json!({"detail": pf.detail}),
+            trace: json!({}),
+        });
+    }
+    report.triage(violations);
+    let mut paths = Vec::new();
+    for (i, v) in report.violations.iter().enumerate() {
+        let p = report.write_replay(v, i);
+        let st = std::process::Command::new(std::env::current_exe().unwrap()).arg(&tier).arg("--replay").arg(&p).output();
+        match st {
+            Ok(out) if out.status.code() == Some(1) && String::from_utf8_lossy(&out.stdout).contains("REPLAY-REPRODUCED") => {}
+            other => report.harness_errors.push(format!("replay of {} did not reproduce in a fresh process: {:?}", p.display(), other.map(|o| (o.status, String::from_utf8_lossy(&o.stdout).chars().take(300).collect::<String>())))),
+        }
+        paths.push(p);
+    }
+
+    let mut samples = stats.samples.clone();
+    samples.extend(proc_samples);
+    let coverage = json!({
+        "evaluations": stats.runs + proc_runs,
+        "in_process_runs": stats.runs, "outputs_compared": stats.outputs, "fresh_process_runs": proc_runs,
+        "distinct_nontrivial": stats.signatures.len(),
+        "rule": "one evaluation = one generation history (1..3 library calls) of one input file set in a fresh thread under one environment tape (hash key, maps created before, thread reuse, API vs read_dir route, registration permutation, re-added file, directory permutation, history), or one fresh-process run of the real binary under (hash key, directory order). Every output is compared byte for byte with the canonical-environment output of the same input. Distinct = distinct (input, tape); non-trivial = the environment differs from the canonical one in at least one dimension.",
+        "samples": samples,
+        "exhaustive": false,
+        "inputs": w.sets.len(),
+        "inputs_failing_deterministically": canon.iter().filter(|c| c.is_err()).count(),
+        "environments_per_input": n_env,
+        "dimensions_explored": stats.dims_explored,
+        "probes": stats.probes,
+        "hash_key_selfprobe_distinct_orders": stats.probe_orders.len(),
+        "runs_per_hour": ((stats.runs + proc_runs) as f64 / report.start.elapsed().as_secs_f64().max(0.001) * 3600.0) as u64,
+        "seeds": [report.seed],
+        "faults_fired": {"n/a": "C12 has no fault dimension; the simulator owns entropy, order and history instead"},
+        "simulated_time_ms": "n/a: no clock is read",
+        "real_components": ["zeep_lib::reader::{Files, FilesToRead, XmlReader::read_xml}", "zeep_lib::utils::read_input_file_and_xsd_files_at_path", "the write_xml tree", "the zeep binary (process tier)"],
+        "stub_components": ["entropy (getrandom) and readdir order via libverifsim.so"],
+        "determinism_selfcheck": {"runs_repeated": slice.len(), "worker_counts": [simkernel::workers(), 3], "mismatches": mism},
+        "differing_outputs_before_dedup": stats.found.len(), "differing_process_pairs": proc_findings.len(),
+    });
+    report.write_evidence(coverage, &[
+        "std::collections::HashMap obtains its keys through the interposable getrandom symbol (self-probe: distinct iteration orders were observed)",
+        "concurrent calls on one FilesToRead are outside the statement (sequential histories only)",
+    ]);
+    std::process::exit(report.finish(&paths));
+}
